@@ -83,4 +83,11 @@ example :
     let s := run (init 1) [.enroll 0, .exec 0, .requestStop, .postSentinels, .acceptorExit, .exec 0, .setFlag]
     Final s = true ∧ s.results = [0] ∧ s.failed = [] ∧ unanswered s = [] ∧ s.closed = [0] := by decide
 
+-- non-vacuity of the step `reorder` (hand-overs of different goroutines reach the queue in an order of their own): the
+-- second enrolment is registered first, everything above still holds of the run
+example :
+    let s := run (init 1) [.enroll 0, .enroll 0, .reorder 0 1, .exec 0, .exec 0, .requestStop, .postSentinels, .exec 0,
+                           .acceptorExit, .setFlag]
+    s.opened = [(1, 0), (0, 0)] ∧ Final s = true ∧ unclosed s = [] ∧ unanswered s = [] := by decide
+
 end Gnet.Props.Handover
